@@ -505,6 +505,19 @@ def main(argv):
         tmask = extract.mask_rust(text)
         used = [h.split("::")[-1] for h in ur_.auto_included if h.split("::")[-1] != f["name"] and re.search(r"\b" + re.escape(h.split("::")[-1]) + r"\s*\(", tmask)]
         if used:
+            # ... unless the property's concrete scenarios REPRODUCE a misbehaviour on the real crate: a replayed failing
+            # input is definitive, whatever the helper's missing contract (only possible on /repo itself, not on a scratch copy)
+            w = None
+            if extract.REPO == "/repo":
+                try:
+                    import witness as wmod
+                    if prop in wmod.FINDERS:
+                        w = wmod.find(prop, o, tier)
+                except Exception as e:
+                    w = None
+            if w and w.get("found"):
+                o["witness"] = w
+                continue
             undecided.append(f"helper-without-contract unit={o.get('unit')}: {o['id']} fails, but {f['name']} calls {', '.join(sorted(set(used)))} which is not under contract (auto-included, result unconstrained)")
     wall = time.time() - t0
     failed = [o for o in all_obs if o["failed"]]
